@@ -82,6 +82,9 @@ class Prop(PropBase):
             v1, v2 = self._count(rng), self._frac(rng)
             if kind == "add" and rng.random() < 0.4:
                 v2 = self._count(rng) * rng.choice([1.0, 2**-10]) + self._frac(rng)
+                if abs(F(v1) + F(v2)) > TWO52:        # the property (and the theorem) speak about counts up to 2^52
+                    v2 = v2 / 4 if abs(v2) > abs(v1) else v2
+                    v1 = v1 / 4 if abs(F(v1) + F(v2)) > TWO52 else v1
             c = {"op": "kernel", "kind": kind, "v1": hx(v1), "v2": hx(v2), "f": None, "d": None}
             if kind == "mul":
                 f = self._factor(rng)
